@@ -88,6 +88,34 @@ CHECKS = {
         "After every transition: hash file (absent = {}) equals the reference map; `gwf status` equals the reference plan under those records.",
         note="Slurm simulator only (hash logic is backend independent).",
     ),
+    "C11": dict(
+        level="model_checking", design="§4 C11",
+        technique="stateless deviation-bounded DFS over choice sequences (step / process exit / timer / client op) on a hand-stepped asyncio loop running the real Scheduler and Server, with state-hash pruning; spawn monitor + reference final-state table",
+        text="All task DAGs on <=3 tasks (thorough 4) with dependencies on earlier ids, cores 1-2 (3), time limit on/off, exit codes {0,1}, one (thorough two) cancel at every script position and target, API and pipelined server delivery, start failure, unknown dependency id; every execution with <=1 (thorough 2) early deliveries. "
+        "Monitor at every spawn: each dependency has an observed process that exited 0 and is COMPLETED; at the horizon: a task with a failed/killed/cancelled dependency never spawned and ended failed resp. cancelled.",
+        note="Fake child processes / clock; asyncio primitives as shipped. Real-process tier: see DESIGN §3.7.",
+    ),
+    "C12": dict(
+        level="model_checking", design="§4 C12",
+        technique="same exhaustive schedule exploration; invariant on the live-process count at every spawn and work-conservation check at every quiescent state",
+        text="Same executions as C11 plus burst scenarios (failed dependency + skipped dependent followed by >= cores+1 runnable tasks; cancel while waiting for a core; time-out). "
+        "At every spawn: processes alive and not yet sent a kill <= cores. At every quiescent state: if a submitted task has all dependencies completed, the number of tasks holding a core >= cores.",
+        note="The bound counts processes that have not been sent SIGKILL/SIGTERM.",
+    ),
+    "C13": dict(
+        level="model_checking", design="§4 C13",
+        technique="same exhaustive schedule exploration; stability monitor on every state and a reference table mapping what happened to a task to its admissible final states",
+        text="Same executions plus environment answers: start failure, missing log directory, 70 kB payloads, natural exit racing a kill. Final states never change; no task spawned twice; at the horizon every accepted task is final and in the set ref.pool allows "
+        "(completed iff ran and exited 0 without cancel/time-out; failed/killed for non-zero exit, start failure, time-out, failed dependency; cancelled if a cancel was processed while it was submitted/running or a dependency was cancelled); logs of tasks that ran to their end equal the payloads; no process alive at the horizon.",
+        note="'No child process keeps running after cancel' needs real processes (sh wrapper vs command): real-process tier / DESIGN D14.",
+    ),
+    "C14": dict(
+        level="model_checking", design="§4 C14",
+        technique="exhaustive interleaving exploration of three client connections (real Server.handle_connection coroutines on the virtual loop) over a 21-action misbehaviour alphabet",
+        text="Healthy synchronous client H [enqueue a; enqueue b(dep a); states], late healthy client N [enqueue c; states], misbehaving client M performing every sequence of <=1 action (deviation bound 1) and selected sequences of 2 (bound 0) [thorough: all pairs, bounds 2/1] from: garbage, empty line, {}, list, string, unknown kind, enqueue missing/extra field, deps unknown id / wrong type / int, state/cancel of unknown id, cancel of a string id, cancel of H's task, invalid UTF-8, half line + EOF, EOF, reset, failing drain, well-formed enqueue. "
+        "Checked: ids distinct and answered with the task's own id; every task_states answer equals the true table when written; H and N got every owed answer; every accepted task final and admissible.",
+        note="Connections are StreamReaders fed by the explorer; real sockets only in the real-socket tier.",
+    ),
 }
 
 PENDING = {
